@@ -1,5 +1,5 @@
 (* C09 — document-wide lookups always agree with the current tree. *)
-From Odf Require Import model.Base model.Dom proofs.DomProofs proofs.IndexProofs.
+From Odf Require Import model.Base model.Dom model.DomCheck proofs.DomProofs proofs.IndexProofs proofs.DomCheckProofs.
 
 (* Idx top h: the state of the document's lookups agrees with the tree of h whose root is top (IndexProofs.Idx: index = the
    owned elements, each once; ownership constant along parent links and meaning "the parent chain ends at top"; the style
@@ -47,3 +47,23 @@ Print Assumptions C09_walk_complete.
 Theorem C09_start : forall a b, WF (heap1 a b) /\ Idx 0 (heap1 a b) /\ Comp (heap1 a b).
 Proof. intros a b. exact (conj (heap1_wf a b) (conj (heap1_idx a b) (heap1_comp a b))). Qed.
 Print Assumptions C09_start.
+
+(* the executable checkers the harness runs on the snapshot of the real document each history starts from are sound: a
+   snapshot they accept satisfies the hypotheses above ... *)
+Theorem C09_checked_start : forall top l ed sd, idx_ok top l ed sd = true -> Idx top (lheap l ed sd).
+Proof. exact idx_checked. Qed.
+Print Assumptions C09_checked_start.
+Theorem C09_checked_complete : forall l ed sd, comp_ok l sd = true -> Comp (lheap l ed sd).
+Proof. exact comp_checked. Qed.
+Print Assumptions C09_checked_complete.
+
+(* ... so every history from an accepted snapshot keeps the lookups exact (the side conditions are checked per step by
+   op_okb / keeps_topb, C09_checked_step) *)
+Theorem C09_checked_history : forall top l ed sd ops, wf_ok l = true -> idx_ok top l ed sd = true ->
+  ops_ok (lheap l ed sd) ops -> ops_keep_top top ops -> WF (run (lheap l ed sd) ops) /\ Idx top (run (lheap l ed sd) ops).
+Proof. exact checked_history. Qed.
+Print Assumptions C09_checked_history.
+Theorem C09_checked_step : forall top h o, WF h -> Idx top h -> op_okb h o = true -> keeps_topb top o = true ->
+  WF (heap_of (step h o)) /\ Idx top (heap_of (step h o)).
+Proof. exact checked_step. Qed.
+Print Assumptions C09_checked_step.
